@@ -109,6 +109,12 @@ impl Analysis {
         self.tree.clone()
     }
 
+    /// Forgets everything that was recorded so far. Every pass re-emits the whole program and records
+    /// its definitions and usages again, so only what the last pass has recorded should remain.
+    pub fn clear(&mut self) {
+        self.definitions.clear();
+    }
+
     pub fn get_or_create_definition_mut(&mut self, ty: DefinitionType) -> &mut Definition {
         match self.definitions.entry(ty) {
             Entry::Occupied(e) => {
